@@ -61,9 +61,40 @@ func runC12(c *Ctx) {
 	if c.NeedFunc("R12.1", enc, "encodeBookmark") {
 		ok := false
 
+		cookieGlob := "call:dyn:*global:" + pkgInmem + ".bookmarkCookie()"
+
 		for _, in := range Find(enc, IsReturn) {
-			d := p.DescN(in.(*ssa.Return).Results[0], 6)
-			ok = Glob("call:(encoding/binary.bigEndian).AppendUint64(*global:encoding/binary.BigEndian,call:slices.Clone(call:dyn:*global:"+pkgInmem+".bookmarkCookie()),param#0)", d)
+			ok = false
+
+			call, _ := CallOf(in.(*ssa.Return).Results[0])
+			if call == nil || p.CalleeName(call) != "(encoding/binary.bigEndian).AppendUint64" || p.ArgDesc(call, 2) != "param#0" {
+				continue
+			}
+
+			// the prefix is a private copy of the cookie: Clone(cookie) or append(<empty fresh slice>, cookie...)
+			base, _ := CallOf(CallArgs(call)[1])
+			if base == nil {
+				continue
+			}
+
+			switch p.CalleeName(base) {
+			case "slices.Clone", "bytes.Clone":
+				ok = Glob(cookieGlob, p.ArgDesc(base, 0))
+			case "builtin.append":
+				args := CallArgs(base)
+				if len(args) == 2 && Glob(cookieGlob, p.Desc(args[1])) {
+					switch b := Fwd(args[0]).(type) {
+					case *ssa.MakeSlice:
+						ok = p.Desc(b.Len) == "const:0"
+					case *ssa.Const:
+						ok = b.IsNil()
+					case *ssa.Slice:
+						// make([]byte, 0, <const>) is `new [n]byte` sliced to [:0]
+						al, isAlloc := b.X.(*ssa.Alloc)
+						ok = isAlloc && al.Comment == "makeslice" && b.High != nil && p.Desc(b.High) == "const:0"
+					}
+				}
+			}
 		}
 
 		c.Check(ok, "R12.1", FuncName(enc)+" :: clone(cookie) ++ BigEndian uint64(pos)", fpos(enc), "yes", "encoding differs")
